@@ -55,7 +55,7 @@ type Proof struct {
 }
 
 func (p *Proof) IsValid(public Public) bool {
-	if p == nil {
+	if p == nil || p.Commitment == nil {
 		return false
 	}
 	if p.Gamma == nil || p.Gamma.IsZero() {
